@@ -72,6 +72,9 @@ pub enum Op {
 #[derive(Clone, Debug, Serialize, Deserialize)]
 pub struct Case {
     pub ops: Vec<Op>,
+    /// entry-point sweep case (see sweep.rs); `ops` is ignored
+    #[serde(default)]
+    pub sweep: Option<crate::sweep::SweepCase>,
 }
 
 fn amt() -> impl Strategy<Value = Amt> {
@@ -121,7 +124,7 @@ impl Property for C05 {
         "C05"
     }
     fn rule(&self) -> &'static str {
-        "proptest histories (<=25 quick / <=45 thorough ops) over 2 ITS-deployed tokens (initial supply 1000 / 0, with / without minter), 2 registered canonical Stellar assets plus a canonical harness token that checks neither sign nor balance, 4 users, an executable probe, 3 chains: deployments, registrations, outbound transfers (amount 0, -1, 1, small, balance, balance+1, custody, custody+1; data absent / present; gas 0, -1, 1, all, all+1), approved inbound transfers (to users, to the executable with data, occasionally to the service itself or the gas service; amounts up to custody+1), trusted-chain changes, minter mints, transfers of unknown token ids. Oracle: ledger model of every balance, custody per canonical token and supply per deployed token, compared after every step (custody = token balance of the service, never negative; supply = sum of balances over the closed address pool); successful outbound = exactly sender -amount, payer -gas, gas service +gas, one contract_called whose payload equals the harness's own ABI encoding of SendToHub{chain, Transfer{id, XDR(sender), destination, amount, data}}, a gas payment event carrying keccak(payload), payer and amount, and a service event naming token, sender and amount; inbound credits exactly the amount and the service event names token, recipient and amount; every refused call leaves the ledger snapshot identical. The configuration of known finding C11 (supply>0 with minter) is excluded by construction. non-trivial = history has transfers in both directions on a canonical token, or a failing attempt between two successful transfers; distinct by Debug hash"
+        "proptest histories (<=25 quick / <=45 thorough ops) over 2 ITS-deployed tokens (initial supply 1000 / 0, with / without minter), 2 registered canonical Stellar assets plus a canonical harness token that checks neither sign nor balance, 4 users, an executable probe, 3 chains: deployments, registrations, outbound transfers (amount 0, -1, 1, small, balance, balance+1, custody, custody+1; data absent / present; gas 0, -1, 1, all, all+1), approved inbound transfers (to users, to the executable with data, occasionally to the service itself or the gas service; amounts up to custody+1), trusted-chain changes, minter mints, transfers of unknown token ids. Oracle: ledger model of every balance, custody per canonical token and supply per deployed token, compared after every step (custody = token balance of the service, never negative; supply = sum of balances over the closed address pool); successful outbound = exactly sender -amount, payer -gas, gas service +gas, one contract_called whose payload equals the harness's own ABI encoding of SendToHub{chain, Transfer{id, XDR(sender), destination, amount, data}}, a gas payment event carrying keccak(payload), payer and amount, and a service event naming token, sender and amount; inbound credits exactly the amount and the service event names token, recipient and amount; every refused call leaves the ledger snapshot identical. The configuration of known finding C11 (supply>0 with minter) is excluded by construction. non-trivial = history has transfers in both directions on a canonical token, or a failing attempt between two successful transfers; distinct by Debug hash. A share of the random cases is an entry-point sweep (construction as described for C13: the exported functions of all shipped contracts read from the sources of the tree under test, a complete deployed system, pooled arguments - including well-formed signer sets nobody installed and proofs properly signed by the gateway's own signer set over digests that belong to no command -, every require_auth satisfied by the host's mock and recorded; entry points absent from the pinned inventory get 300 deterministic cases each); oracle: the service's custody of the locked canonical token never decreases and the supply of the token it deployed grows only with its designated minter among the recorded signers (no inbound message is approved in these cases); non-trivial = the call succeeded"
     }
     fn assumptions(&self) -> Vec<&'static str> {
         vec![
@@ -133,6 +136,7 @@ impl Property for C05 {
         tier.pick(2500, 40000)
     }
     fn strategy(&self, tier: Tier) -> BoxedStrategy<Case> {
+        let direct: BoxedStrategy<Case> = {
         (prop_oneof![1 => Just(0u8), 2 => Just(1u8), 4 => Just(2u8)], proptest::collection::vec(op(), 1..=tier.pick(25usize, 45usize)))
             .prop_map(|(start, mut ops)| {
                 // most histories start with a usable world (the prefix is part of the case and shrinks with it)
@@ -151,12 +155,24 @@ impl Property for C05 {
                     ],
                 };
                 pre.append(&mut ops);
-                Case { ops: pre }
+                Case { ops: pre, sweep: None }
             })
             .boxed()
+        };
+        match crate::sweep::strategy(crate::sweep::Rule::Value) {
+            Some(sw) => prop_oneof![6 => direct, 1 => sw.prop_map(|s| Case { ops: vec![], sweep: Some(s) })].boxed(),
+            None => direct,
+        }
+    }
+
+    fn fixed_cases(&self, _tier: Tier) -> Vec<Case> {
+        crate::sweep::fixed_cases(300).into_iter().map(|s| Case { ops: vec![], sweep: Some(s) }).collect()
     }
 
     fn run(&self, case: &Case, cx: &mut Cx) -> Result<(), String> {
+        if let Some(sw) = &case.sweep {
+            return crate::sweep::run(sw, cx, crate::sweep::Rule::Value);
+        }
         let w = build_its_world("stellar", HUB_ADDR, NU);
         let env = &w.env;
         let exec_id = env.register(TokenExec, (w.its.id.clone(),));
